@@ -64,21 +64,52 @@ pub struct Sections { _p: u8 }
 impl Sections {
     pub uninterp spec fn count(&self) -> u64;
 }
-/// `RTreeChildren` (the in-memory R-tree): opaque here, built and laid out in units rt_nodes / rt_layout
+/// `RTreeChildren` (the in-memory R-tree): opaque here, built and laid out in units rt_nodes / rt_layout.
+/// `id()` = ghost identity of the tree value (which sections, rebased from where, chunked with which options).
 #[verifier::external_body]
 pub struct RTreeShim { _p: u8 }
+pub type TreeId = int;
+impl RTreeShim {
+    pub uninterp spec fn id(&self) -> TreeId;
+}
+/// the tree `get_rtreeindex` builds from the section stream `s` rebased to start at file offset `base` (ASSUMED: a function
+/// of exactly these; units rt_tree / rt_spans / rt_build are about that function)
+pub uninterp spec fn tree_of(s: Sections, base: u64, o: BBIWriteOptions) -> TreeId;
+/// its number of levels above the leaves (the second component `get_rtreeindex` returns)
+pub uninterp spec fn depth_of(t: TreeId) -> usize;
+/// what unit rt_layout calls `fmt_index(b0, t, levels, block_size, item_count, items_per_slot)` minus its first `b0.len()`
+/// bytes, for `levels == depth_of(t)` and `b0.len() == at`: the 48-byte cirTree header followed by the nodes of level
+/// `levels`, .., 0 with ABSOLUTE child positions (that is why `at` is an argument).  Uninterpreted here: the bytes are
+/// rt_layout's business, this unit only says WHICH index lies WHERE.
+pub uninterp spec fn index_bytes(t: TreeId, o: BBIWriteOptions, count: u64, at: int) -> Seq<u8>;
+/// "the published index of tree `t` (itemCount `count`) lies at offset `off` of the file image `d`"
+pub open spec fn index_at(d: Seq<u8>, off: int, t: TreeId, o: BBIWriteOptions, count: u64) -> bool {
+    &&& 0 <= off
+    &&& index_bytes(t, o, count, off).len() >= 48
+    &&& off + index_bytes(t, o, count, off).len() <= d.len()
+    &&& d.subrange(off, off + index_bytes(t, o, count, off).len()) == index_bytes(t, o, count, off)
+}
 
 /// `zoom.sections.map(|mut section| { section.offset = current_offset; current_offset += section.size; section })`
 /// followed by `get_rtreeindex(sections_iter, options)`, as ONE call.  The rebasing closure is verified in
 /// unit sec_offsets (`rebase/*`), get_rtreeindex (itertools chunks) is outside Verus.  Assumed: the third
-/// component is the number of sections the stream yielded; no file access.
+/// component is the number of sections the stream yielded, the first is THE tree of this stream rebased from
+/// `zoom_data_offset` (`tree_of`), the second is that tree's depth; no file access.
 #[verifier::external_body]
 pub fn build_index(sections: Sections, zoom_data_offset: u64, options: &BBIWriteOptions) -> (r: (RTreeShim, usize, u64))
     ensures r.2 == sections.count(),
+        r.0.id() == tree_of(sections, zoom_data_offset, *options),
+        r.1 == depth_of(r.0.id()),
 { unimplemented!() }
 
-/// `write_rtreeindex` (unit rt_layout proves its byte layout over an append-only sink): on a destination
-/// positioned at its end, Ok appends some bytes (length unspecified here) and overwrites nothing.
+/// `write_rtreeindex` with the contract unit rt_layout PROVES for the real function over an append-only sink
+/// (labels of rt_layout/write_rtreeindex): on a destination positioned at its end, Ok
+///  * overwrites nothing (`earlier_file_content_untouched`) -- also for a `levels` that is not the tree's depth;
+///  * for `levels` = the tree's depth (rt_layout's precondition `wf(nodes, levels, ..)`): appends exactly the published
+///    index of THIS tree laid out from the position the sink had (`index_is_header_then_levels_top_down_with_true_child_positions`:
+///    `file' == fmt_index(file, nodes, levels, block_size, section_count, items_per_slot)`), which is at least the
+///    48-byte header (`index_size_is_header_plus_all_nodes`: `len' == len + 48 + above(..)`, `header_is_48_bytes`).
+/// Nothing is promised on Err.
 #[verifier::external_body]
 pub fn write_rtreeindex(file: &mut FSink, nodes: RTreeShim, levels: usize, section_count: u64, options: &BBIWriteOptions) -> (r: Result<(), IoError>)
     requires old(file).wf(),
@@ -86,6 +117,9 @@ pub fn write_rtreeindex(file: &mut FSink, nodes: RTreeShim, levels: usize, secti
         final(file).wf(),
         r is Ok && old(file).pos() == old(file).data().len() ==>
             prefix(old(file).data(), final(file).data()) && final(file).pos() == final(file).data().len(),
+        r is Ok && old(file).pos() == old(file).data().len() && levels == depth_of(nodes.id()) ==>
+            final(file).data() == old(file).data() + index_bytes(nodes.id(), *options, section_count, old(file).data().len() as int)
+            && index_bytes(nodes.id(), *options, section_count, old(file).data().len() as int).len() >= 48,
 { unimplemented!() }
 
 impl FSink {
@@ -126,9 +160,15 @@ pub open spec fn entry_holds(d: Seq<u8>, e: ZoomHeader, lv: ZoomInfo) -> bool {
     &&& d.subrange(e.data_offset as int, e.index_offset as int) == lv.data.staged()
     &&& e.index_tree_offset is None
 }
+/// at entry `e`'s index_offset the file image `d` holds the published R-tree index of level `lv`: of the tree built from
+/// THAT level's sections rebased to the entry's data_offset, with that level's section count as itemCount
+pub open spec fn index_holds(d: Seq<u8>, e: ZoomHeader, lv: ZoomInfo, o: BBIWriteOptions) -> bool {
+    index_at(d, e.index_offset as int, tree_of(lv.sections, e.data_offset, o), o, lv.sections.count())
+}
 /// the ghost bookkeeping of the loop: `idx[j]` = input level of entry j
-pub open spec fn book_ok(z: Seq<ZoomInfo>, e: Seq<ZoomHeader>, idx: Seq<int>, d: Seq<u8>, n0: int, upto: int) -> bool {
+pub open spec fn book_ok(z: Seq<ZoomInfo>, e: Seq<ZoomHeader>, idx: Seq<int>, d: Seq<u8>, n0: int, upto: int, o: BBIWriteOptions) -> bool {
     &&& idx.len() == e.len()
+    &&& forall|j: int| 0 <= j < e.len() ==> index_holds(d, #[trigger] e[j], z[idx[j]], o)
     &&& forall|j: int| 0 <= j < e.len() ==> 0 <= (#[trigger] idx[j]) < upto
     &&& forall|a: int, b: int| 0 <= a < b < e.len() ==> (#[trigger] idx[a]) < (#[trigger] idx[b])
     &&& forall|j: int| 0 <= j < e.len() ==> entry_holds(d, #[trigger] e[j], z[idx[j]])
@@ -184,28 +224,49 @@ pub proof fn lemma_appended_region(a: Seq<u8>, x: Seq<u8>)
 {
     assert((a + x).subrange(a.len() as int, (a.len() + x.len()) as int) =~= x);
 }
-/// every entry keeps pointing at its bytes when the file only grows
-pub proof fn lemma_book_extends(z: Seq<ZoomInfo>, e: Seq<ZoomHeader>, idx: Seq<int>, d: Seq<u8>, d2: Seq<u8>, n0: int, upto: int)
-    requires book_ok(z, e, idx, d, n0, upto), prefix(d, d2),
-    ensures book_ok(z, e, idx, d2, n0, upto),
+/// an index that lies in the file stays where it is when the file only grows
+pub proof fn lemma_index_at_stable(d: Seq<u8>, d2: Seq<u8>, off: int, t: TreeId, o: BBIWriteOptions, count: u64)
+    requires index_at(d, off, t, o, count), prefix(d, d2),
+    ensures index_at(d2, off, t, o, count),
 {
+    lemma_prefix_region(d, d2, off, off + index_bytes(t, o, count, off).len());
+}
+/// the freshly appended index lies at the old end of the file
+pub proof fn lemma_index_appended(d: Seq<u8>, t: TreeId, o: BBIWriteOptions, count: u64)
+    requires index_bytes(t, o, count, d.len() as int).len() >= 48,
+    ensures index_at(d + index_bytes(t, o, count, d.len() as int), d.len() as int, t, o, count),
+{
+    lemma_appended_region(d, index_bytes(t, o, count, d.len() as int));
+}
+/// every entry keeps pointing at its bytes when the file only grows
+pub proof fn lemma_book_extends(z: Seq<ZoomInfo>, e: Seq<ZoomHeader>, idx: Seq<int>, d: Seq<u8>, d2: Seq<u8>, n0: int, upto: int, o: BBIWriteOptions)
+    requires book_ok(z, e, idx, d, n0, upto, o), prefix(d, d2),
+    ensures book_ok(z, e, idx, d2, n0, upto, o),
+{
+    assert forall|j: int| 0 <= j < e.len() implies index_holds(d2, #[trigger] e[j], z[idx[j]], o) by {
+        assert(index_holds(d, e[j], z[idx[j]], o));
+        lemma_index_at_stable(d, d2, e[j].index_offset as int, tree_of(z[idx[j]].sections, e[j].data_offset, o), o, z[idx[j]].sections.count());
+    }
     assert forall|j: int| 0 <= j < e.len() implies entry_holds(d2, #[trigger] e[j], z[idx[j]]) by {
         assert(entry_holds(d, e[j], z[idx[j]]));
         lemma_prefix_region(d, d2, e[j].data_offset as int, e[j].index_offset as int);
     }
 }
 /// one more kept level: the bookkeeping extends
-pub proof fn lemma_book_push(z: Seq<ZoomInfo>, e: Seq<ZoomHeader>, idx: Seq<int>, d1: Seq<u8>, d3: Seq<u8>, n0: int, k: int, x: ZoomHeader)
+pub proof fn lemma_book_push(z: Seq<ZoomInfo>, e: Seq<ZoomHeader>, idx: Seq<int>, d1: Seq<u8>, d3: Seq<u8>, n0: int, k: int, x: ZoomHeader, o: BBIWriteOptions)
     requires
         levels_ascending(z), 0 <= k < z.len(),
-        book_ok(z, e, idx, d1, n0, k), entries_ascending(e), prefix(d1, d3), n0 <= d1.len(),
-        entry_holds(d3, x, z[k]), x.data_offset == d1.len(),
+        book_ok(z, e, idx, d1, n0, k, o), entries_ascending(e), prefix(d1, d3), n0 <= d1.len(),
+        entry_holds(d3, x, z[k]), index_holds(d3, x, z[k], o), x.data_offset == d1.len(),
     ensures
-        book_ok(z, e.push(x), idx.push(k), d3, n0, k + 1), entries_ascending(e.push(x)),
+        book_ok(z, e.push(x), idx.push(k), d3, n0, k + 1, o), entries_ascending(e.push(x)),
 {
-    lemma_book_extends(z, e, idx, d1, d3, n0, k);
+    lemma_book_extends(z, e, idx, d1, d3, n0, k, o);
     let e2 = e.push(x);
     let idx2 = idx.push(k);
+    assert forall|j: int| 0 <= j < e2.len() implies index_holds(d3, #[trigger] e2[j], z[idx2[j]], o) by {
+        if j < e.len() { assert(index_holds(d3, e[j], z[idx[j]], o)); }
+    }
     assert forall|j: int| 0 <= j < e2.len() implies entry_holds(d3, #[trigger] e2[j], z[idx2[j]]) by {
         if j < e.len() { assert(entry_holds(d3, e[j], z[idx[j]])); }
     }
@@ -257,6 +318,9 @@ pub proof fn lemma_lvl_of(z: Seq<ZoomInfo>, k: int)
         r matches Ok(v) ==> forall|j: int| 0 <= j < v@.len() ==> ({
             let k = lvl_of(zooms@, (#[trigger] v@[j]).reduction_level);
             0 <= k < zooms@.len() && entry_holds(final(file).data(), v@[j], zooms@[k]) }),
+        [[L: every_entry_index_offset_holds_the_published_index_of_its_own_level]]
+        r matches Ok(v) ==> forall|j: int| 0 <= j < v@.len() ==>
+            index_holds(final(file).data(), #[trigger] v@[j], zooms@[lvl_of(zooms@, v@[j].reduction_level)], *options),
         [[L: entries_follow_input_order]]
         r matches Ok(v) ==> forall|a: int, b: int| 0 <= a < b < v@.len() ==>
             lvl_of(zooms@, (#[trigger] v@[a]).reduction_level) < lvl_of(zooms@, (#[trigger] v@[b]).reduction_level),
@@ -309,7 +373,7 @@ pub proof fn lemma_lvl_of(z: Seq<ZoomInfo>, k: int)
             file.wf(), file.pos() == file.data().len(), prefix(d0, file.data()),
             zoom_entries@.len() == 0 ==> file.data() == d0,
             [[L: loop/book]]
-            book_ok(z, zoom_entries@, idx, file.data(), n0, zi__ as int),
+            book_ok(z, zoom_entries@, idx, file.data(), n0, zi__ as int, *options),
             entries_ascending(zoom_entries@),
             zoom_count == zoom_entries@.len(),
             [[L: loop/auto_selection]]
@@ -354,7 +418,9 @@ pub proof fn lemma_lvl_of(z: Seq<ZoomInfo>, k: int)
             lemma_prefix_trans(d0, d1, d3);
             lemma_prefix_region(d2, d3, zoom_data_offset as int, zoom_index_offset as int);
             assert(entry_holds(d3, zoom_entries@.last(), z[k])); [[L: loop/pushed_entry_describes_this_level]]
-            lemma_book_push(z, e_old, idx, d1, d3, n0, k, zoom_entries@.last());
+            lemma_index_appended(d2, tree_of(z[k].sections, zoom_entries@.last().data_offset, *options), *options, z[k].sections.count());
+            assert(index_holds(d3, zoom_entries@.last(), z[k], *options)); [[L: loop/index_of_this_level_lies_at_the_pushed_index_offset]]
+            lemma_book_push(z, e_old, idx, d1, d3, n0, k, zoom_entries@.last(), *options);
             idx = idx.push(k);
             assert(idx == sel(z, zi__ as int, half, maxz, check_zoom).0); [[L: loop/kept_by_the_rule]]
             if sel(z, zi__ as int, half, maxz, check_zoom).1 { lemma_sel_stopped(z, zi__ as int, z.len() as int, half, maxz, check_zoom); }
@@ -367,6 +433,9 @@ pub proof fn lemma_lvl_of(z: Seq<ZoomInfo>, k: int)
         }
         assert forall|j: int| 0 <= j < zoom_entries@.len() implies (#[trigger] zoom_entries@[j]).reduction_level == z[idx[j]].resolution by {
             assert(entry_holds(file.data(), zoom_entries@[j], z[idx[j]]));
+        }
+        assert forall|j: int| 0 <= j < zoom_entries@.len() implies index_holds(file.data(), #[trigger] zoom_entries@[j], z[lvl_of(z, zoom_entries@[j].reduction_level)], *options) by {
+            assert(index_holds(file.data(), zoom_entries@[j], z[idx[j]], *options));
         }
     }
 //@end
